@@ -1352,7 +1352,7 @@ func TestProp(t *testing.T) {
 	thorough := run.Env.Thorough()
 
 	exprRule := "programs of 1..3 statements (82% one) drawn from: int literals, variables (ASCII, CJK, accented, full-width names bound to ints), + - * in ASCII and full-width spelling, unary signs, parentheses, dice terms of every family (XdY with k/kh/q/kl/dh/dl[n], min/max, 优势/劣势, default sides, chains, Fate, CoC b/p[n], WoD XaYmZkNqM, Double Cross XcYmZ) whose operands are numbers or parenthesised sub-expressions with guaranteed legal ranges (sub-rolls up to 3 deep), blanks/tabs/CR/LF wherever the grammar takes them, ';' or line-break separators, on a VM seeded with 16 drawn bytes; oracle: VM spans = printer spans, text = source with every top-level roll replaced by value[annotation], value = span Ret, annotation = roll text [= dice listing][,sub=value…] with the listing's total/count/faces/marks implied by the operands, de-annotated text re-evaluates to Ret, GetDetailText twice equal and Ret/Attrs/seed/DetailSpans untouched; non-trivial = at least 2 dice terms and at least 1 binary operator; distinct by (source, seed, variables)"
-	run.Check("expr", 40000, 520000, exprRule, func(t *rapid.T, s *rt.Section) {
+	run.Check("expr", 40000, 400000, exprRule, func(t *rapid.T, s *rt.Section) {
 		c := &Case{Seed: drawSeed(t), Vars: drawVars(t, false)}
 		g := newGen(t, c.Vars)
 		g.avoid = s.Avoid
@@ -1388,7 +1388,7 @@ func TestProp(t *testing.T) {
 	})
 
 	sessRule := "2..5 programs (as in expr) run in a row on VM A, which asks for the text 0..3 times after each (30% of the steps go through Parse + RunAfterParsed instead of Run), and on a twin B with the same seed that asks a different number of times; 12% of the steps fail (d0, 0d6, unbalanced parenthesis; asking for the text afterwards must not fail) and 15% rebind a variable through Attrs; oracle: the full expr oracle on A whenever it asks (catches a stale cache or stale spans from the previous program), and equal Ret / generator state / variables / text between A and B after every step; non-trivial = at least 2 successful steps with dice, with A and B asking differently before the last; distinct by step list"
-	run.Check("session", 8000, 90000, sessRule, func(t *rapid.T, s *rt.Section) {
+	run.Check("session", 8000, 70000, sessRule, func(t *rapid.T, s *rt.Section) {
 		c := &Session{Seed: drawSeed(t), Vars: drawVars(t, false)}
 		n := rapid.IntRange(2, 5).Draw(t, "nsteps")
 		diceSteps, differ := 0, false
@@ -1443,7 +1443,7 @@ func TestProp(t *testing.T) {
 	})
 
 	compRule := "as expr, with 1..2 variables bound to computed values whose body is a generated expression (no default-sides dice: they crash inside a computed body, a C01 matter), either stored through the API or defined in the program itself by a leading `&name = body;` statement (body spans are rebased by fixCodeByOffset); oracle: value[name=<nested text>=value] where the nested text is the body with its rolls replaced (aligned against the body source), re-evaluates to the value, plus the whole expr oracle for the rest; non-trivial = a computed variable whose body has a dice term is read next to another term; distinct by (source, seed, variables)"
-	run.Check("computed", 12000, 160000, compRule, func(t *rapid.T, s *rt.Section) {
+	run.Check("computed", 12000, 120000, compRule, func(t *rapid.T, s *rt.Section) {
 		c := &Case{Seed: drawSeed(t), Vars: drawVars(t, false)}
 		nt := drawComputed(t, c)
 		src, _ := c.source()
@@ -1476,7 +1476,7 @@ func TestProp(t *testing.T) {
 	})
 
 	tailRule := "a generated expression (as in expr, one statement) followed by a separator (blank, line break, ';' or nothing) and free text: words, CJK text, punctuation, brackets, quotes, operators, keywords, or a second expression cut at a random byte and optionally opened by [ { ( `{ ' x( x[ — the way a chat command carries a reason after the dice; only what the VM reports as consumed is judged: GetDetailText never fails, is idempotent and harmless, the text is the consumed source with every reported span range replaced by value[annotation], the value is the span's Ret, and (when the consumed part is arithmetic) the de-annotated text re-evaluates to Ret; non-trivial = at least one dice term and a non-empty unconsumed rest; distinct by (source, seed)"
-	run.Check("tail", 24000, 300000, tailRule, func(t *rapid.T, s *rt.Section) {
+	run.Check("tail", 24000, 240000, tailRule, func(t *rapid.T, s *rt.Section) {
 		c := &Case{Seed: drawSeed(t), Vars: drawVars(t, false)}
 		g := newGen(t, c.Vars)
 		g.avoid = s.Avoid
